@@ -11,6 +11,11 @@ import (
 // given property on the outcome.
 func actAllocateRun(prop string, o actOpts) {
 	w := actAllocateWorld(o)
+	for _, q := range w.queues {
+		if q.limit >= 0 {
+			vr.Assume(w.queueAllocated(q.name, false) <= q.limit) // reachable snapshot: limits held so far
+		}
+	}
 	allocate.New().Execute(w.ssn)
 	for i, aj := range w.jobs {
 		vr.Observe(vs.Name("placed", i), w.placed(aj))
@@ -139,7 +144,8 @@ func VerifC03_AllocateGang() {
 
 // VerifC08_AllocateAction: queue limits and the non-preemptible quota rule hold at every level after
 // the real allocate action.
-// BOUND: 1 node, 2 pending single-pod jobs in leaf queue qa under department d; limits of d and qa unlimited or symbolic, deserved quota of qa symbolic, preemptibility explored
+// BOUND: 1 node, 0..1 pod of qa already running or being bound (bound plus nominated pods count), 2 pending single-pod jobs in leaf queue qa under department d; limits of d and qa unlimited or symbolic, deserved quota of qa symbolic, preemptibility explored
 func VerifC08_AllocateAction() {
-	actAllocateRun("C08", actOpts{nNodes: 1, nJobs: 2, bits: 8, sameQueue: true, symLimits: true, symPreempt: true})
+	actAllocateRun("C08", actOpts{nNodes: 1, nJobs: 2, bits: 8, sameQueue: true, symLimits: true, symPreempt: true,
+		existing: vr.Choose("existing", 2), existingInQa: true, existingSt: []pod_status.PodStatus{pod_status.Running, pod_status.Binding}})
 }
